@@ -182,6 +182,7 @@ PROPS = {
         "level": "exploration",
         "units": [
             U("c13", "TestProofRoundTrip", T(12, 16, 300), T(15, 64, 600)),
+            U("c13", "TestCommandLine", T(10, 8, 300), T(15, 48, 600)),
             U("c13", "TestSyntheticRoundTrip", T(1500, 4, 300), T(3000, 32, 600)),
         ],
     },
